@@ -34,6 +34,9 @@ structure SeqSt where
   idx : Nat := 0               -- how many times `next(sources_)` yielded a source
   pending : Bool := true       -- an `action` is scheduled (the first one at subscribe time)
   lastErr : Option Err := none
+  arg : Option Err := none     -- on_error_resume_next: the `state` the next scheduled action will hand to a source FACTORY:
+                               -- the predecessor's error, or None after a normal completion / at the start
+  calls : List (Nat × Option Err) := []   -- (position, argument) of every consumed iterator position, in order (observation only)
 deriving Repr, BEq, DecidableEq
 
 /-- does the operator continue with the next source on this terminal? -/
@@ -50,12 +53,12 @@ def seqHandler {α} (kind : SeqKind) (s : SeqSt) (_k : Nat) : Notif α → SeqSt
     match kind with
     | .concat => (s, [Act.emit (.error e)])
     | .catch => ({ s with lastErr := some e, pending := true }, [])
-    | .oern => ({ s with pending := true }, [])
+    | .oern => ({ s with pending := true, arg := some e }, [])      -- `scheduler.schedule(action, state = error)`
   | .completed =>
     match kind with
     | .concat => ({ s with pending := true }, [])
     | .catch => (s, [Act.emit .completed])
-    | .oern => ({ s with pending := true }, [])
+    | .oern => ({ s with pending := true, arg := none }, [])        -- `on_resume()` : state = None
 
 /-- the scheduled `action`.  Every scheduled action is held by the `cancelable` SerialDisposable, a member of
 the returned composite: once that is disposed (`done`) a pending action is cancelled (concat/catch
@@ -69,7 +72,7 @@ def seqTick {α} (kind : SeqKind) (items : Nat → Item) (s : SeqSt) (done : Boo
       -- `subscription.disposable = d` (SerialDisposable): the previous source's holder is disposed - a no-op when the
       -- previous source already closed itself (queued hand-over), the thing that closes it when the action runs
       -- re-entrantly inside its terminal handler (inline hand-over) - then the next source is subscribed
-      ({ s with pending := false, idx := s.idx + 1 }, [Act.unsub (s.idx - 1), Act.sub s.idx])
+      ({ s with pending := false, idx := s.idx + 1, calls := s.calls ++ [(s.idx, s.arg)] }, [Act.unsub (s.idx - 1), Act.sub s.idx])
     | .stop =>
       ({ s with pending := false },
         match kind, s.lastErr with
@@ -79,7 +82,7 @@ def seqTick {α} (kind : SeqKind) (items : Nat → Item) (s : SeqSt) (done : Boo
       -- concat/catch: `next(sources_)` raising (a failing generator / mapper / condition) is caught:
       -- `except Exception as ex: observer.on_error(ex)`; on_error_resume_next: a raising source factory is
       -- caught the same way (`try: source = source(state) … except Exception as ex: observer.on_error(ex)`)
-      ({ s with pending := false }, [Act.emit (.error e)])
+      ({ s with pending := false, calls := s.calls ++ [(s.idx, s.arg)] }, [Act.emit (.error e)])
     | .fail e =>
       -- the iterator yields a source that fails at once with `e` and is NOT one of the logged sources: for_in's mapper /
       -- while_do's condition raising (the code wraps them into `defer(…)` / `throw(ex)`), or a `throw(ex)` passed in the
@@ -89,7 +92,7 @@ def seqTick {α} (kind : SeqKind) (items : Nat → Item) (s : SeqSt) (done : Boo
       match kind with
       | .concat => ({ s with pending := false }, [Act.unsub (s.idx - 1), Act.emit (.error e)])
       | .catch => ({ s with idx := s.idx + 1, lastErr := some e, pending := true }, [Act.unsub (s.idx - 1)])
-      | .oern => ({ s with idx := s.idx + 1, pending := true }, [Act.unsub (s.idx - 1)])
+      | .oern => ({ s with idx := s.idx + 1, pending := true, arg := some e, calls := s.calls ++ [(s.idx, s.arg)] }, [Act.unsub (s.idx - 1)])
 
 def seqM {α} (kind : SeqKind) (items : Nat → Item) : Machine SeqSt α α :=
   { handler := seqHandler kind, tick := seqTick kind items }
